@@ -1,6 +1,7 @@
 import NixModel.Index
 import NixModel.NDArray
 import NixModel.Spec.C01
+import NixModel.Dump
 namespace Nix.Drive
 
 /-- the axis a trace is currently talking about (index family) -/
@@ -21,8 +22,17 @@ structure ArrSt where
   hist : List (C01.HOp String) := []
   implShape : Idx := []
 
+/-- what the store family remembers between lines (only what the IMPLEMENTATION answered) -/
+structure StoreSt where
+  lastDump : Option Dump := none
+  sinceDump : List (String × Bool) := []          -- ops since the last dump: (op name, did the implementation accept it?)
+  slotIds : List (String × String) := []          -- slot ↦ id, from the answers to mk / get
+  order : List (String × List String) := []       -- container key "kind@parentId" ↦ ids in creation order (never shrinks)
+  everSeen : List (String × String) := []         -- id ↦ "kind name created" as first observed
+
 structure DState where
   axis : AxisDesc := .none
   arr : Option ArrSt := none
+  store : StoreSt := {}
 
 end Nix.Drive
